@@ -254,7 +254,35 @@ func (g *gen) elabName(name string, e *env) (Val, error) {
 			}
 		}
 	}
+	// constants of other loaded packages (contracts are evaluated at call sites in other packages too)
+	for _, pk := range g.prog.pkgs {
+		if obj, ok := pk.Types.Scope().Lookup(name).(*types.Const); ok {
+			return g.constVal(ssa.NewConst(obj.Val(), obj.Type())), nil
+		}
+	}
 	return Val{}, fmt.Errorf("unknown name %q", name)
+}
+
+// pkgConst resolves pkg.Name to a constant of a loaded or imported package.
+func (g *gen) pkgConst(pkg, name string) (Val, bool) {
+	var found *types.Const
+	visit := func(tp *types.Package) {
+		if found == nil && tp.Name() == pkg {
+			if c, ok := tp.Scope().Lookup(name).(*types.Const); ok {
+				found = c
+			}
+		}
+	}
+	for _, pk := range g.prog.pkgs {
+		visit(pk.Types)
+		for _, imp := range pk.Types.Imports() {
+			visit(imp)
+		}
+	}
+	if found == nil {
+		return Val{}, false
+	}
+	return g.constVal(ssa.NewConst(found.Val(), found.Type())), true
 }
 
 // lookupLocal finds the SSA value of source variable `name` reaching the entry of e.atBlock.
@@ -415,7 +443,14 @@ func (g *gen) elabBin(x *Expr, e *env) (Val, error) {
 }
 
 func (g *gen) elabField(x *Expr, e *env) (Val, error) {
-	// package-qualified constant, e.g. time.Hour? (not supported) — treat as field access
+	// package-qualified constant, e.g. time.Hour
+	if x.Args[0].Op == "name" {
+		if _, bound := e.names[x.Args[0].S]; !bound {
+			if v, ok := g.pkgConst(x.Args[0].S, x.S); ok {
+				return v, nil
+			}
+		}
+	}
 	a, err := g.elab1(x.Args[0], e)
 	if err != nil {
 		return Val{}, err
@@ -686,6 +721,13 @@ func (g *gen) elabCall(x *Expr, e *env) (Val, error) {
 		}
 		es := g.ctx.sortOf(a.GoT.Underlying().(*types.Slice).Elem())
 		return Val{T: "(select " + g.stGet(e.st, g.ctx.elemComp(es)) + " (s.ref " + a.T + "))", S: "(Array Int " + es + ")"}, nil
+	case "f2i":
+		as, err := args()
+		if err != nil {
+			return Val{}, err
+		}
+		g.ctx.declareOnce("f2i", "(declare-fun f2i (Float64) Int)")
+		return intVal("(f2i " + as[0].T + ")"), nil
 	case "idx":
 		as, err := args()
 		if err != nil {
